@@ -565,7 +565,7 @@ AREAS["C08"] = {'area': 'c08',
 
 WIP = "not yet built in this round; the design (DESIGN.md section 6) claims it and the check is being added"
 NOT_CLAIMED = {pid: WIP for pid in ["C%02d" % i for i in range(1, 21)] if pid not in AREAS}
-HOOK_COMMITS = ["6f869d9", "e935e32", "bce5a7c"]
+HOOK_COMMITS = ["6f869d9", "e935e32", "bce5a7c", "1912acd"]
 
 # input families added after the rule texts above were written (kept apart so the texts above stay readable)
 _STORE_MORE = ("; further families: keys \"-1\" and \" \" in the alphabet and, next to both spellings of key zero in one batch, a third point of that type whose key sorts between them; one identity written at instants near both ends of the nanosecond range and in between, the same "
@@ -587,8 +587,8 @@ _RULE_MORE = {
     "C09": "; a bearer token that expires between two uses, secondary credential points (alternative e-mail / password) written during the history",
     "C11": "; slices grown to the size limit by an earlier call, member keys beyond the declared ones",
     "C12": "; a decoy value encoded between encode and decode of the observed one, value round trips right after failed decodes",
-    "C13": "; incoming points that carry the rule's own origin",
-    "C15": "; a moved top node (imported at its live placement), texts equal to node ids, indented multi-line texts, one node with 520 living children of which ten have children of their own, one tree in eight with a node of 9-13 children, one tree in five with two ids that differ only in the case of a letter",
+    "C13": "; incoming points that carry the rule's own origin; the ruleProcessPoints histories run on one client per history (client.VerifRuleSession), 250 of them on a client that has been handed the same batches before an edit of a threshold; one rule in eight has two schedule conditions over one window with different weekday filters",
+    "C15": "; a moved top node (imported at its live placement), texts equal to node ids, indented multi-line texts, two nodes with exactly 1000 child edges / exactly 1000 living children of which ten have children of their own, one tree in eight with a node of 9-13 children, one tree in five with two ids that differ only in the case of a letter",
     "C17": "; a decoy packet encoded while the observed one is still held",
     "C18": "; register maps built from overlapping AddReg ranges and declared ascending, descending, odd positions first or with the middle backwards, validators installed and lifted again (set to nil)",
     "C19": "; the same builders as C18 (declaration orders included), read responses of short length must be rejected, registers added while the server is serving (call 7, 30 sessions), every conversion called twice",
